@@ -111,6 +111,27 @@ def generate(tier, seed, ctx):
         pub, priv = first
         rec['pubok'] = int(K.private_key_to_public_key(priv) == pub and SigningKey(priv[:32]).verify_key.encode() == pub)
         out.append(rec)
+    # the validity rule itself, on mnemonics that contain the first / second / last word of the list (generated ones rarely do):
+    # ground truth from hashlib directly - entropy = HMAC-SHA512(key = words joined by spaces, msg = empty),
+    # valid iff PBKDF2-HMAC-SHA512(entropy, "TON seed version", 390 iterations)[0] = 0
+    import hashlib, hmac
+
+    def rule(ws):
+        ent = hmac.new(' '.join(ws).encode(), b'', hashlib.sha512).digest()
+        return int(hashlib.pbkdf2_hmac('sha512', ent, b'TON seed version', 390)[0] == 0)
+    for widx in ((0, 1, len(K.words) - 1) if q else (0, 1, 2, 1023, 1024, len(K.words) - 2, len(K.words) - 1)):
+        found = {0: None, 1: None}
+        for _try in range(20000):
+            ws = [K.words[rng.randrange(len(K.words))] for _ in range(24)]
+            ws[rng.randrange(24)] = K.words[widx]
+            v = rule(ws)
+            if found[v] is None:
+                found[v] = ws
+            if found[0] is not None and found[1] is not None:
+                break
+        for v, ws in found.items():
+            if ws is not None:
+                out.append({'op': 'mnemonic_rule', 'word_index': widx, 'rule': v, 'libvalid': int(bool(K.mnemonic_is_valid(list(ws))))})
     return out
 
 
